@@ -423,7 +423,50 @@ def check_program(prog, break_or=False):
     return res
 
 
+# ----------------------------------------------------------------------------- identity scripts (round 6)
+# `a ?= e` STORES the value of e: when e is a list with the same contents as the list a already holds, a must refer to
+# e's list afterwards (observable through a later in-place update).  (id, source, expected lines)
+SCRIPTS = [
+    ("unwrap_assign_equal_but_distinct_list",
+     "left: [int...] = [0]\nright: [int...] = [0]\ncur: [int...]? = left\nok = cur ?= right\nprint ok\nc2 = get cur\nc2.push(3)\nprint left\nprint right\n",
+     ["true", "[0]", "[0, 3]"]),
+    ("unwrap_assign_equal_but_distinct_empty_list",
+     "e1: [int...] = []\ne2: [int...] = []\nholder: [int...]? = e1\nt2 = holder ?= e2\nh2 = get holder\nh2.push(7)\nprint e1\nprint e2\n",
+     ["[]", "[7]"]),
+    ("unwrap_assign_walk_over_equal_rows",
+     "rows: [[int...]?...] = [[0], [0, 1], [0], nil]\nfirst: [int...] = [0]\nrow: [int...]? = first\ni = 0\nwhile row ?= rows[i] {\n  r = get row\n  r.push(9)\n  i += 1\n}\nprint rows\nprint first\n",
+     ["[[0, 9], [0, 1, 9], [0, 9], nil]", "[0]"]),
+    ("unwrap_assign_equal_but_distinct_list_in_function",
+     "left: [int...] = [0]\nright: [int...] = [0]\ngo = fn() -> bool {\n  cur: [int...]? = left\n  fl = cur ?= right\n  c2 = get cur\n  c2.push(3)\n  return fl\n}\nprint go()\nprint left\nprint right\n",
+     ["true", "[0]", "[0, 3]"]),
+    ("unwrap_assign_same_scalar_and_str",
+     "a: int? = 5\nb: int? = 5\nprint a ?= b\nprint a\ns: str? = \"x\"\nu: str? = \"x\"\nprint s ?= u\nprint s\nn: int? = nil\nprint a ?= n\nprint a == nil\n",
+     ["true", "5", "true", "x", "false", "true"]),
+    ("unwrap_assign_equal_but_distinct_map",
+     "m1 = map[int, int] {\n 1: 1\n}\nm2 = map[int, int] {\n 1: 1\n}\ncur: map[int, int]? = m1\nfl = cur ?= m2\nc2 = get cur\nc2[2] = 2\nprint m1.len()\nprint m2.len()\n",
+     ["1", "2"]),
+]
+
+
+def work_script(item):
+    _, sid, src, exp = item
+    r, _, _ = core.run_program({"main.ms": 'print "%s"\n' % RUN + src}, cpu=10)
+    res = {"events": {}, "script": sid}
+    if r.cls in ("wall_timeout", "spawn_error", "cpu_timeout"):
+        res.update(kind="inconclusive", why=r.cls)
+    elif core.compile_rejected(r):
+        res.update(kind="rejected", msg=(r.out + r.err)[-400:])
+    elif r.cls != "ok" or r.lines() != [RUN] + exp:
+        res.update(kind="problem", dev="failure" if r.cls != "ok" else "output",
+                   witness={"files": {"main.ms": 'print "%s"\n' % RUN + src}, "expected_lines": exp, "observed_lines": r.lines()[1:], "run": r.brief()})
+    else:
+        res.update(kind="agree")
+    return res
+
+
 def work(item):
+    if item[0] == "script":
+        return work_script(item)
     """('group', cell-without-position, brk): the 6 positions of one cell group are first run as ONE program (each
     position uses its own names; the model predicts the whole output); when the model predicts a failure, or the
     batch does not agree, every position is run as its own program so that a deviation is attributed exactly."""
@@ -678,6 +721,7 @@ def run(ctx, break_or=False):
             continue
         items.append(("group", g, break_or))
     n_groups = len(items)
+    items += [("script", sid, src, exp) for sid, src, exp in SCRIPTS]
     if not ctx.quick:
         base = ctx.seed * 1000003
         items += [("rand", base + i, break_or) for i in range(6000)]
@@ -698,6 +742,21 @@ def run(ctx, break_or=False):
             continue
         for k, v in res["events"].items():
             events[k] = events.get(k, 0) + v
+        if item[0] == "script":
+            cov["identity_scripts"] = cov.get("identity_scripts", 0) + 1
+            if res["kind"] == "inconclusive":
+                out.inconclusive.append("script %s: %s" % (item[1], res["why"]))
+            elif res["kind"] == "rejected":
+                out.inconclusive.append("script %s is rejected by the compiler: %s" % (item[1], res["msg"][-200:]))
+            elif res["kind"] == "problem":
+                out.evaluations += 1
+                out.violations.append(core.Violation("C12:script:%s:%s" % (item[1], res["dev"]),
+                                                     "`?=` identity script %s deviates (%s)" % (item[1], res["dev"]), res["witness"]))
+            else:
+                out.evaluations += 1
+                cov["identity_scripts_agree"] = cov.get("identity_scripts_agree", 0) + 1
+                out.distinct.add(core.h(["script", item[1]]))
+            continue
         if item[0] == "rand":
             if res["kind"] == "inconclusive":
                 out.inconclusive.append(res["why"])
